@@ -245,6 +245,67 @@ func (q *depQuery) allocRead(al *ssa.Alloc, full []int, depth int) bool {
 	return false
 }
 
+// closureCellStores: stores to the captured variable `cell` made inside closures (through their free variables).
+func (q *depQuery) closureCellStores(cell *ssa.Alloc, full []int, depth int) bool {
+	if cell.Referrers() == nil {
+		return false
+	}
+	for _, ref := range *cell.Referrers() {
+		mc, ok := ref.(*ssa.MakeClosure)
+		if !ok {
+			continue
+		}
+		fn, ok := mc.Fn.(*ssa.Function)
+		if !ok {
+			continue
+		}
+		for i, bnd := range mc.Bindings {
+			if bnd != ssa.Value(cell) || i >= len(fn.FreeVars) {
+				continue
+			}
+			fv := fn.FreeVars[i]
+			if fv.Referrers() == nil {
+				continue
+			}
+			// addresses derived from the free variable by field selection
+			addrs := []addrPath{{fv, nil}}
+			for k := 0; k < len(addrs); k++ {
+				cur := addrs[k]
+				if cur.addr.Referrers() == nil {
+					continue
+				}
+				for _, r2 := range *cur.addr.Referrers() {
+					if fa, ok := r2.(*ssa.FieldAddr); ok && fa.X == cur.addr {
+						addrs = append(addrs, addrPath{fa, append(append([]int{}, cur.path...), fa.Field)})
+					}
+				}
+			}
+			for _, d := range addrs {
+				if d.addr.Referrers() == nil {
+					continue
+				}
+				for _, r2 := range *d.addr.Referrers() {
+					st, ok := r2.(*ssa.Store)
+					if !ok || st.Addr != d.addr {
+						continue
+					}
+					switch {
+					case isPrefix(d.path, full):
+						if q.dep(st.Val, full[len(d.path):], depth+1) {
+							return true
+						}
+					case isPrefix(full, d.path):
+						if q.dep(st.Val, nil, depth+1) {
+							return true
+						}
+					}
+				}
+			}
+		}
+	}
+	return false
+}
+
 // fieldAlong returns the id ("pkg.T.f") of the innermost field selected by path from type t.
 func fieldAlong(t types.Type, path []int) (string, bool) {
 	id := ""
@@ -372,7 +433,14 @@ func (q *depQuery) compute(v ssa.Value, path []int, depth int) bool {
 		base, ap := resolveAddr(x.X)
 		full := append(append([]int{}, ap...), path...)
 		if al, ok := base.(*ssa.Alloc); ok {
-			return q.allocRead(al, full, depth)
+			return q.allocRead(al, full, depth) || q.closureCellStores(al, full, depth)
+		}
+		if fv, ok := base.(*ssa.FreeVar); ok {
+			// a variable captured by reference: stores made in this closure, in the enclosing function
+			// and in the other closures that capture the same variable
+			if cell := localCell(fv); cell != nil {
+				return q.allocRead(cell, full, depth) || q.closureCellStores(cell, full, depth)
+			}
 		}
 		if len(ap) == 0 {
 			// load through a pointer that is not a field address (element of a slice, *p, global)
